@@ -2,6 +2,7 @@
 
 From Coq Require Import NArith PeanoNat List Bool Lia ZArith.
 From Coq Require Import ZifyBool ZifyN ZifyNat.
+From Coq.Strings Require Import Byte.
 From DC Require Import Crc Frame.
 Import ListNotations.
 Open Scope N_scope.
@@ -539,3 +540,74 @@ Section RpcProofs.
     intros [<-|[]]. exists body. split; [reflexivity|assumption].
   Qed.
 End RpcProofs.
+
+(** ** Concrete codecs satisfying [codec_ok] (non-vacuity of the hypotheses) *)
+
+Definition ex_codec : codec (bool * bool) := {|
+  fixed := 2;
+  archive := fun p => [N.b2n (fst p); N.b2n (snd p)];
+  view := fun bs => match bs with [x; y] => Some (N.odd x, N.odd y) | _ => None end;
+|}.
+
+Lemma ex_codec_ok : codec_ok ex_codec.
+Proof.
+  split; [|split].
+  - intros [[|] [|]]; reflexivity.
+  - intros p. cbn [fixed archive ex_codec length]. lia.
+  - intros [[|] [|]]; repeat constructor.
+Qed.
+
+Definition code_to_N (c : error_code) : N :=
+  match c with
+  | ServiceUnavailable => 0 | InternalError => 1 | InvalidPayload => 2
+  | ConnectionError => 3 | Timeout => 4
+  end.
+
+Definition code_of_N (n : N) : option error_code :=
+  match n with
+  | 0 => Some ServiceUnavailable | 1 => Some InternalError | 2 => Some InvalidPayload
+  | 3 => Some ConnectionError | 4 => Some Timeout | _ => None
+  end.
+
+Fixpoint bytes_of_Ns (l : list N) : option (list byte) :=
+  match l with
+  | [] => Some []
+  | x :: t =>
+      match Byte.of_N x, bytes_of_Ns t with
+      | Some b, Some r => Some (b :: r)
+      | _, _ => None
+      end
+  end.
+
+Definition ex_status_codec : codec status_t := {|
+  fixed := 1;
+  archive := fun s => code_to_N (st_code s) :: map Byte.to_N (st_message s);
+  view := fun bs =>
+    match bs with
+    | c :: m =>
+        match code_of_N c, bytes_of_Ns m with
+        | Some c', Some m' => Some {| st_code := c'; st_message := m' |}
+        | _, _ => None
+        end
+    | [] => None
+    end;
+|}.
+
+Lemma bytes_of_Ns_to_N m : bytes_of_Ns (map Byte.to_N m) = Some m.
+Proof.
+  induction m as [|b m IH]; [reflexivity|].
+  cbn [map bytes_of_Ns]. rewrite Byte.of_to_N, IH. reflexivity.
+Qed.
+
+Lemma ex_status_codec_ok : codec_ok ex_status_codec.
+Proof.
+  split; [|split].
+  - intros [c m]. cbn [view archive ex_status_codec st_code st_message].
+    rewrite bytes_of_Ns_to_N. destruct c; reflexivity.
+  - intros s. cbn [fixed archive ex_status_codec length]. lia.
+  - intros [c m]. cbn [archive ex_status_codec st_code st_message]. constructor.
+    + unfold is_byte. destruct c; cbn [code_to_N]; lia.
+    + induction m as [|b m IH]; [constructor|].
+      cbn [map]. constructor; [|exact IH].
+      unfold is_byte. pose proof (Byte.to_N_bounded b). lia.
+Qed.
